@@ -31,6 +31,7 @@ import common
 from common import InfraError
 
 sys.path.insert(0, os.path.join(common.VERIF, "translate"))
+import c13_flatten  # noqa: E402  (flat <op> ct_length of fb_fill_type's two struct-flattening loops)
 import c13_tmpbuf  # noqa: E402   (per-argument temporary handling of cdata_call / the API wrapper, shape-checked)
 import intmacros  # noqa: E402   (C03's extractor of the _cffi_to_c_SIGNED_FN/_UNSIGNED_FN conditions and the _cffi_to_c_int dispatch)
 
@@ -370,13 +371,13 @@ class Path:
         return bytes(self.ffi.buffer(self.lib.c13_log(), n)) if n else b""
 
 
-def build_world(ctx, fns):
+def build_world(ctx, fns, extra_src="", extra_cdef=""):
     import cffi
     if ctx.scratch not in sys.path:
         sys.path.insert(0, ctx.scratch)
     _counter[0] += 1
     tag = "%d_%d_%d" % (ctx.seed, os.getpid(), _counter[0])
-    src, cdef = make_source(fns), make_cdef(fns)
+    src, cdef = make_source(fns) + extra_src, make_cdef(fns) + extra_cdef
     name = "_c13_api_" + tag
     ffi = cffi.FFI()
     ffi.cdef(cdef)
@@ -991,12 +992,206 @@ def run_probe(ctx, paths, case, lines, plans):
         plans.append((case, "err " + exp[1]))
 
 
+
+# --------------------------------------------------------------------------- structs with multi-dimensional array fields
+
+# (type, sizeof, struct.pack code); char elements are single bytes
+ELEM = {"float": (4, "<f"), "double": (8, "<d"), "char": (1, None), "short": (2, "<h"), "int": (4, "<i"), "long long": (8, "<q")}
+# always present (every seed): <= 16 bytes and 17..40 bytes, 2-D and 3-D, mixed with scalars; in every array the product
+# of the dimensions differs from the last dimension
+FIXED_ARRAY_STRUCTS = [
+    [("float", [2, 2])],                                        # 16
+    [("double", [2, 1]), ("int", [])],                          # 24
+    [("short", [2, 3])],                                        # 12
+    [("char", [2, 2, 2]), ("float", [2, 1])],                   # 16
+    [("int", [2, 2])],                                          # 16
+    [("float", []), ("float", [2, 1]), ("float", [])],          # 16
+    [("double", [2, 1])],                                       # 16
+    [("float", [3, 2]), ("int", [])],                           # 28
+    [("double", [2, 2])],                                       # 32
+    [("short", [2, 2, 2]), ("double", [])],                     # 24
+    [("char", [3, 3]), ("int", [2, 1]), ("float", [])],         # 24
+    [("int", []), ("double", [1, 2, 1])],                       # 24
+    [("short", [2, 2]), ("float", [2, 1])],                     # 16
+    [("char", [4, 2]), ("double", [])],                         # 16
+    [("long long", [2, 2]), ("char", [2, 2])],                  # 40
+]
+
+
+def gen_array_struct(rng):
+    while True:
+        fields, total = [], 0
+        for _ in range(rng.randint(1, 3)):
+            t = rng.choice(sorted(ELEM))
+            if rng.random() < 0.75:
+                dims = [rng.randint(2, 3)] + [rng.randint(1, 3) for _ in range(rng.randint(1, 2))]
+            else:
+                dims = []
+            n = 1
+            for d in dims:
+                n *= d
+            fields.append((t, dims))
+            total += n * ELEM[t][0]
+        if total <= 40 and any(d for _, d in fields):
+            return fields
+
+
+def nelem(dims):
+    n = 1
+    for d in dims:
+        n *= d
+    return n
+
+
+def as_decl(k, fields):
+    return "struct SA%d { %s };\n" % (k, " ".join("%s f%d%s;" % (t, j, "".join("[%d]" % d for d in dims))
+                                                  for j, (t, dims) in enumerate(fields)))
+
+
+def as_source(k, fields):
+    S = "struct SA%d" % k
+    logs = lambda v: " ".join("LOGB(&%s.f%d, (int)sizeof(%s.f%d)); MIXB(&%s.f%d, sizeof(%s.f%d));" % ((v, j) * 4)
+                              for j in range(len(fields)))
+    fill, bump = [], []
+    for j, (t, dims) in enumerate(fields):
+        n = nelem(dims)
+        ptr = "((%s *)&r.f%d)" % (t, j)
+        ptrs = "((%s *)&s.f%d)" % (t, j)
+        if t in ("float", "double"):
+            fill.append("{ int q; for (q = 0; q < %d; q++) %s[q] = (%s)(x %% 97 + 5 * q + %d) / 4; }" % (n, ptr, t, j))
+            bump.append("{ int q; for (q = 0; q < %d; q++) %s[q] = %s[q] * 2 + (%s)x / 8 + q; }" % (n, ptrs, ptrs, t))
+        else:
+            fill.append("{ int q; for (q = 0; q < %d; q++) %s[q] = (%s)(x * 7 + 13 * q + %d); }" % (n, ptr, t, j))
+            bump.append("{ int q; for (q = 0; q < %d; q++) %s[q] = (%s)(%s[q] + x + q); }" % (n, ptrs, t, ptrs))
+    return """
+long long sa_take_%(k)d(%(S)s s, int x)
+{ unsigned long long mix = (unsigned long long)x; %(logs_s)s errno = (int)(mix %% 30000) + 1; return (long long)(mix >> 3); }
+%(S)s sa_make_%(k)d(int x)
+{ unsigned long long mix = 1; %(S)s r; memset(&r, 0, sizeof r); %(fill)s %(logs_r)s errno = (int)(mix %% 30000) + 1; return r; }
+%(S)s sa_echo_%(k)d(int pre, %(S)s s, int x)
+{ unsigned long long mix = (unsigned long long)pre; %(logs_s)s %(bump)s %(logs_s)s errno = (int)(mix %% 30000) + 1; return s; }
+%(S)s sa_cb_%(k)d(%(S)s (*cb)(%(S)s, int), %(S)s s, int x)
+{ unsigned long long mix = 2; %(S)s r; %(logs_s)s r = cb(s, x); %(logs_r)s errno = (int)(mix %% 30000) + 1; return r; }
+""" % {"k": k, "S": S, "logs_s": logs("s"), "logs_r": logs("r"), "fill": " ".join(fill), "bump": " ".join(bump)}
+
+
+def as_cdef(k, fields):
+    S = "struct SA%d" % k
+    return (as_decl(k, fields) + "long long sa_take_%d(%s s, int x);\n%s sa_make_%d(int x);\n%s sa_echo_%d(int pre, %s s, int x);\n"
+            "%s sa_cb_%d(%s (*cb)(%s, int), %s s, int x);\n" % (k, S, S, k, S, k, S, S, k, S, S, S))
+
+
+def gen_elems(rng, fields):
+    """Flat element values per field (JSON-able: floats as multiples of 1/8, chars as ints)."""
+    vals = []
+    for t, dims in fields:
+        n = nelem(dims)
+        if t in ("float", "double"):
+            vals.append([rng.randint(-4000, 4000) / 8.0 for _ in range(n)])
+        elif t == "char":
+            vals.append([rng.randrange(256) for _ in range(n)])
+        else:
+            lo = -(1 << (8 * ELEM[t][0] - 1))
+            vals.append([rng.choice([lo, -lo - 1, -1, 0, rng.randint(lo, -lo - 1)]) for _ in range(n)])
+    return vals
+
+
+def elems_image(fields, vals):
+    out = b""
+    for (t, dims), vs in zip(fields, vals):
+        out += b"".join(bytes([v]) if t == "char" else struct.pack(ELEM[t][1], v) for v in vs)
+    return out
+
+
+def reshape(t, dims, vs):
+    vs = [bytes([v]) for v in vs] if t == "char" else list(vs)
+    if not dims:
+        return vs[0]
+    for d in reversed(dims[1:]):
+        vs = [vs[i:i + d] for i in range(0, len(vs), d)]
+    return vs
+
+
+def build_struct(ffi, k, fields, vals, keep):
+    p = ffi.new("struct SA%d *" % k, [reshape(t, dims, vs) for (t, dims), vs in zip(fields, vals)])
+    keep.append(p)
+    return p[0]
+
+
+def struct_image(ffi, fields, s):
+    """Concatenated field images of a struct cdata (padding between fields left out)."""
+    return b"".join(bytes(ffi.buffer(ffi.addressof(s, "f%d" % j))) for j in range(len(fields)))
+
+
+def run_array_structs(ctx, nrandom, nvalues):
+    """By-value structs with 2-D / 3-D array fields as arguments and results, through the four call paths and through
+    ffi.callback closures.  Oracle: the images are computed with struct.pack from the element values (and the API-mode
+    `lib.f` path is gcc's own calling convention); the libffi paths must agree with both."""
+    rng = ctx.rng
+    structs = list(FIXED_ARRAY_STRUCTS) + [gen_array_struct(rng) for _ in range(nrandom)]
+    src = "".join(as_decl(k, f) for k, f in enumerate(structs)) + "".join(as_source(k, f) for k, f in enumerate(structs))
+    cdef = "".join(as_cdef(k, f) for k, f in enumerate(structs))
+    paths = build_world(ctx, [], extra_src=src, extra_cdef=cdef)
+    for k, fields in enumerate(structs):
+        size = sum(nelem(d) * ELEM[t][0] for t, d in fields)
+        for _ in range(nvalues):
+            vals, ret_vals = gen_elems(rng, fields), gen_elems(rng, fields)
+            x, pre = rng.randint(-1000, 1000), rng.randint(0, 1000)
+            for op in ("take", "make", "echo", "cb"):
+                case = {"array_struct": fields, "k": k, "op": op, "vals": vals, "ret_vals": ret_vals, "x": x, "pre": pre}
+                ctx.case(repr((fields, op, vals, ret_vals, x)), sample={"struct": as_decl(k, fields).strip(), "op": op})
+                ctx.count("array-struct:%s:%s" % (op, "<=16" if size <= 16 else ">16"))
+                obs = {p.name: array_struct_call(p, k, fields, op, vals, ret_vals, x, pre) for p in paths}
+                if not compare_paths(ctx, case, obs):
+                    continue
+                ref = obs["api"]
+                img = elems_image(fields, vals).hex()
+                if op in ("take", "echo", "cb") and not ref["log"].startswith(img):
+                    ctx.fail(case, "the C function did not receive the struct: got %s, passed %s" % (ref["log"][:len(img)], img))
+                if op == "cb":
+                    rimg = elems_image(fields, ret_vals).hex()
+                    if ref["cb_got"] != [img, x]:
+                        ctx.fail(case, "the callback did not receive the struct C passed: %r vs %r" % (ref["cb_got"], [img, x]))
+                    elif ref["log"] != img + rimg or ref["outcome"] != ["ok", rimg]:
+                        ctx.fail(case, "the struct returned by the callback did not arrive: log %s outcome %r, returned %s"
+                                 % (ref["log"], ref["outcome"], rimg))
+                if op in ("make", "echo") and ref["outcome"][0] == "ok" and not ref["log"].endswith(ref["outcome"][1]):
+                    ctx.fail(case, "the struct result differs from what the C function returned: %s vs log %s"
+                             % (ref["outcome"][1], ref["log"]))
+
+
+def array_struct_call(path, k, fields, op, vals, ret_vals, x, pre):
+    ffi = path.ffi
+    keep, got = [], {}
+    f = path.get("sa_%s_%d" % (op, k))
+    path.reset()
+    ffi.errno = SENTINEL
+    try:
+        if op == "take":
+            r = f(build_struct(ffi, k, fields, vals, keep), x)
+            outcome = ["ok", int(r)]
+        elif op == "make":
+            outcome = ["ok", struct_image(ffi, fields, f(x)).hex()]
+        elif op == "echo":
+            outcome = ["ok", struct_image(ffi, fields, f(pre, build_struct(ffi, k, fields, vals, keep), x)).hex()]
+        else:
+            def body(s, xx):
+                got["cb"] = [struct_image(ffi, fields, s).hex(), xx]
+                return build_struct(ffi, k, fields, ret_vals, keep)
+            cb = ffi.callback("struct SA%d(struct SA%d, int)" % (k, k), body)
+            outcome = ["ok", struct_image(ffi, fields, f(cb, build_struct(ffi, k, fields, vals, keep), x)).hex()]
+    except Exception as e:
+        outcome = ["exc", type(e).__name__]
+    err = ffi.errno
+    return {"outcome": outcome, "errno": err, "log": path.log().hex(), "mem": [], "cb_got": got.get("cb")}
+
+
 # --------------------------------------------------------------------------- entry points
 
 def translators(ctx):
     """Generated/IntMacros.lean: the macro conditions and the dispatch the API-path model is proved equal to
     (api_signed_check_is_source, api_unsigned_check_is_source, api_dispatch_is_source)."""
-    return [intmacros.translator(ctx), c13_tmpbuf.translator(ctx)]
+    return [intmacros.translator(ctx), c13_tmpbuf.translator(ctx), c13_flatten.translator(ctx)]
 
 
 def run_module(ctx, nfuncs, ntuples, nprobes, model=True):
@@ -1049,11 +1244,13 @@ def run_module(ctx, nfuncs, ntuples, nprobes, model=True):
 
 def correspond(ctx):
     PARTIAL_STRUCTS[0] = any(f["class"] == "C13/partial-struct-by-value" for f in ctx.open_findings)
+    run_array_structs(ctx, ctx.n(5, 40), ctx.n(3, 12))
     for _ in range(ctx.n(2, 10)):
         run_module(ctx, 40, ctx.n(24, 50), ctx.n(300, 800))
 
 
 def search(ctx):
+    run_array_structs(ctx, ctx.n(20, 80), ctx.n(6, 20))
     for _ in range(ctx.n(3, 12)):
         run_module(ctx, 40, ctx.n(30, 60), ctx.n(300, 1000), model=False)
 
@@ -1102,8 +1299,29 @@ def _fix_recipe(r):
     return r
 
 
+def replay_array_struct(ctx, case):
+    fields = [(t, list(d)) for t, d in case["array_struct"]]
+    k = 0
+    paths = build_world(ctx, [], extra_src=as_decl(k, fields) + as_source(k, fields), extra_cdef=as_cdef(k, fields))
+    obs = {p.name: array_struct_call(p, k, fields, case["op"], _num(case["vals"]), _num(case["ret_vals"]),
+                                     _num(case["x"]), _num(case["pre"])) for p in paths}
+    print(as_decl(k, fields).strip(), case["op"])
+    for name, o in obs.items():
+        print(name, o)
+    ok = compare_paths(ctx, case, obs)
+    img = elems_image(fields, _num(case["vals"])).hex()
+    if ok and case["op"] != "make" and not obs["api"]["log"].startswith(img):
+        ok = False
+    if ok and case["op"] == "cb" and (obs["api"]["cb_got"] != [img, _num(case["x"])]
+                                      or obs["api"]["outcome"] != ["ok", elems_image(fields, _num(case["ret_vals"])).hex()]):
+        ok = False
+    return 0 if ok else 1
+
+
 def replay(ctx, obj):
     case = obj["case"]
+    if "array_struct" in case:
+        return replay_array_struct(ctx, case)
     if "init" in case:
         case["init"] = _fix_recipe(case["init"])
     if "fn" in case:
